@@ -75,6 +75,7 @@ type hist struct {
 	confirmed     map[Hash]bool // txids in blocks of the active reference chain
 	everConfirmed map[Hash]bool
 	everPooled    map[Hash]bool // txids seen pooled at some walk
+	prevPooled    map[Hash]bool // txids pooled at the previous walk
 	baseHeight    uint32
 
 	v       *pview
@@ -219,6 +220,9 @@ func (h *hist) watchdog() {
 				st = st[i:]
 			}
 			fn := firstTxpoolFrame(st)
+			if strings.Contains(st, "txpool.txAccepted(") {
+				fn = "txaccepted"
+			}
 			h.run.Violation("no-return/"+fn+"/orphan-retried-without-bound",
 				fmt.Sprintf("a single call (%s) into the node did not return: txAccepted re-submitted a waiting orphan %d times within that call (the orphan is put back under the same parent and picked up again)", what, d),
 				h.witness(nil, map[string]interface{}{"retries_in_this_call": d, "call": what, "stack_of_main_goroutine": cut(st, 3500)}))
@@ -581,8 +585,10 @@ func (h *hist) check(full bool) bool {
 	fs = append(fs, h.pendingFindings...)
 	h.pendingFindings = nil
 	h.v = v
+	h.prevPooled = map[Hash]bool{}
 	for _, e := range v.ents {
 		h.everPooled[e.id] = true
+		h.prevPooled[e.id] = true
 	}
 	if len(fs) == 0 {
 		return true
